@@ -511,6 +511,8 @@ int
 kh_open(khist_t *h) {
   int rc = ldb_open(h->dbname, &h->o.opt, &h->db);
   h->open_status = rc;
+  if (getenv("VH_DEBUG_FAULT"))
+    fprintf(stderr, "  ldb_open(%s) -> %d, fault fired=%d calls=%ld\n", h->dbname, rc, vfs_cur ? vfs_cur->fault.fired : -1, vfs_cur ? vfs_cur->ncalls : -1);
   if (rc != LDB_OK)
     h->db = NULL;
   else if (h->auto_drain)
